@@ -5,6 +5,8 @@ import (
 	"go/types"
 	"strconv"
 	"strings"
+
+	"golang.org/x/tools/go/ssa"
 )
 
 // Binding is an evaluated contract expression: a term plus (when known) its Go type.
@@ -915,6 +917,39 @@ func (e *Env) call(x ECall) Binding {
 		// constmap(m, v): the map of m's type that holds v for every key
 		a, v := arg(0), arg(1)
 		return Binding{Term{fmt.Sprintf("((as const %s) %s)", a.T.Sort, v.T.S), a.T.Sort}, a.Ty}
+	case "atloop":
+		// atloop(k, x): the value the local x has at the header of the ENCLOSING loop[k] in its
+		// current iteration (the header phi of x) — lets an inner loop's invariant or a measure
+		// relate the cursor to where the enclosing iteration started
+		if e.fr == nil || len(x.Args) != 2 {
+			evalFail("atloop(loop, local) inside a function")
+		}
+		lit, ok := x.Args[0].(EInt)
+		id, ok2 := x.Args[1].(EIdent)
+		if !ok || !ok2 {
+			evalFail("atloop needs a literal loop ordinal and a local's name")
+		}
+		var k int
+		fmt.Sscanf(lit.Val, "%d", &k)
+		for _, li := range e.fr.loops {
+			if li.ordinal != k {
+				continue
+			}
+			for _, ins := range li.header.Instrs {
+				phi, isPhi := ins.(*ssa.Phi)
+				if !isPhi {
+					break
+				}
+				if phi.Comment == id.Name {
+					if t, ok := e.fr.tryVal(phi); ok {
+						return Binding{t, phi.Type()}
+					}
+					evalFail("atloop(%d, %s): used outside loop[%d]", k, id.Name, k)
+				}
+			}
+			evalFail("atloop(%d, %s): the loop does not change %s", k, id.Name, id.Name)
+		}
+		evalFail("atloop: no loop[%d]", k)
 	case "iterdom":
 		// iterdom(k, key): key belongs to the domain snapshot taken when the map range loop[k] began
 		if e.fr == nil {
